@@ -70,6 +70,17 @@ P.update({
           TECH),
 })
 
+P.update({
+  'C01': (True, 'Wire.tla, Wire_Trace.tla',
+          'TLC exhausts Wire.tla (frames of good / bad / over-long kind, the receivers buffer-and-consume loop) over every stream of up to 3 frames and every segmentation and proves ExactlyOnceInOrder, CloseOnlyOversize and AppendOnly; concrete streams of well-formed datapoints (non-ASCII names, fractional and > 2^31 timestamps, +-inf, -0.0, subnormals, random 64-bit patterns, integers, pickle protocols 0-5, any batching) are fed to the real MetricLineReceiver / MetricPickleReceiver under every single cut position, all-1-byte segments and random multi-cuts and to MetricDatagramReceiver per datagram; a recorder on events.metricReceived is the observation and Wire_Trace.tla judges every segment.',
+          'bit-exact float comparison is a value oracle; protobuf listener not importable; Twisted framing code is in the loop (observed, not trusted)',
+          TECH),
+  'C11': (True, 'Wire.tla, Wire_Trace.tla',
+          'Same model (bad frames are skipped, only an over-long frame closes, no action lets an exception escape); streams interleaving well-formed frames with 10 kinds of malformed lines and 10 kinds of malformed pickle frames and over-long frames run on the real listeners under every single cut and random multi-cuts, and byte-level mutants of valid streams must give the same outcome under any segmentation as in one piece; Wire_Trace.tla flags escaped exceptions, unjustified closes and harmed neighbours.',
+          'a real transport stops reading after loseConnection(), so no bytes are fed after a close; NaN values are well-formed here (C12)',
+          TECH),
+})
+
 PENDING_REASON = 'check not built yet in this round (planned per DESIGN.md section 5); not claimed until its TLA+ model and conformance harness exist'
 
 
